@@ -129,6 +129,55 @@ def worker(shard):
             if mido.read_syx_file(fn) != []:
                 acc.violation('empty-file', 'empty file did not read as []',
                               {'kind': 'empty'})
+        elif kind == 'tokens':
+            # every way of placing whitespace between the hex digits of a
+            # small file: a token with an odd number of digits is not
+            # two-digit hex and must raise ValueError; all-two-digit layouts
+            # must parse; longer even tokens are not judged.
+            for digits in ('F0F7', 'F001F7', 'F01234F7', 'F07FF7F0F7'):
+                n = len(digits)
+                want = [sx(m) for m in mido.parse_all(
+                    list(bytes.fromhex(digits))) if m.type == 'sysex']
+                for mask in range(1 << (n - 1)):
+                    for sep in (' ', '\n', '\t ') if mask else (' ',):
+                        text = digits[0]
+                        for i in range(1, n):
+                            if mask >> (i - 1) & 1:
+                                text += sep
+                            text += digits[i]
+                        toks = text.split()
+                        odd = any(len(t) % 2 for t in toks)
+                        two = all(len(t) == 2 for t in toks)
+                        if not odd and not two:
+                            continue
+                        fn = os.path.join(d, 'tok.syx')
+                        with open(fn, 'w') as f:
+                            f.write(text + '\n')
+                        acc.evals += 1
+                        acc.nontrivial += 1
+                        case = {'kind': 'tokens', 'text': text}
+                        try:
+                            got = mido.read_syx_file(fn)
+                        except ValueError:
+                            if two:
+                                acc.violation('tokens/rejected-valid',
+                                              f'{text!r} raised ValueError',
+                                              case)
+                        except Exception as e:
+                            acc.violation(f'tokens/{type(e).__name__}',
+                                          f'{text!r} raised {e!r}', case)
+                        else:
+                            if odd:
+                                acc.violation(
+                                    'tokens/accepted-not-two-digit-hex',
+                                    f'{text!r} (a token with an odd number of '
+                                    f'digits) read as {got!r}; ValueError '
+                                    f'expected', case)
+                            elif [sx(m) for m in got] != want:
+                                acc.violation('tokens/content',
+                                              f'{text!r} read as {got!r}', case)
+            acc.sample({'token_layouts_of': ['F0F7', 'F001F7', 'F01234F7']},
+                       cap=1)
         elif kind == 'layout':
             payloads = ([0xF0, 0xF7], [0xF0, 0x01, 0xF7],
                         [0xF0, 0x7F, 0x00, 0xF7], [0xF0, 0xF7, 0xF0, 0x05, 0xF7],
@@ -153,7 +202,7 @@ def run():
                  'exhaustive enumeration of message lists x formats x '
                  'whitespace layouts through real files')
     n = 5 if thorough else 4
-    shards = [('misc',)]
+    shards = [('misc',), ('tokens',)]
     shards += [('lists', i, n) for i in range(8)]
     shards += [('layout', i) for i in range(5 if thorough else 4)]
     run_shards(worker, shards, rep)
@@ -165,7 +214,7 @@ def run():
         f'plain-text layouts: every assignment of a separator from '
         f'{[repr(s) for s in SEPS]} to each gap of 4-5 small files, with '
         f'leading/trailing whitespace and lower-case hex; invalid text '
-        f'{list(BAD_TEXT)} must raise ValueError. Non-trivial = list mixes '
+        f'{list(BAD_TEXT)} must raise ValueError; every placement of whitespace between the hex digits of 4 small files (odd-length tokens must raise, all-two-digit layouts must parse). Non-trivial = list mixes '
         f'sysex and other messages, or any layout/invalid-text case')
     rep.assumptions += ['files are written to a tmpfs scratch directory',
                         'payload contents beyond the listed ones behave alike']
@@ -193,6 +242,19 @@ def check_case(case):
                     acc.violation('layout', f'read {got!r}, expected {want}')
             except Exception as e:
                 acc.violation('layout-raises', repr(e))
+        elif case['kind'] == 'tokens':
+            fn = os.path.join(d, 'x.syx')
+            with open(fn, 'w') as f:
+                f.write(case['text'] + '\n')
+            odd = any(len(t) % 2 for t in case['text'].split())
+            try:
+                got = mido.read_syx_file(fn)
+                if odd:
+                    acc.violation('tokens/accepted-not-two-digit-hex',
+                                  f'read as {got!r}')
+            except ValueError:
+                if not odd:
+                    acc.violation('tokens/rejected-valid', 'ValueError')
         else:
             return worker(('misc',)).viol and [
                 (k, v[0][1]) for k, v in worker(('misc',)).viol.items()]
